@@ -620,6 +620,10 @@ UPGRADER:
 				p.nextState(stateTailLF)
 				continue
 			}
+			// leading whitespace of a trailer line is skipped, nothing else.
+			if c != ' ' && c != '\t' {
+				return ErrInvalidCharInHeader
+			}
 		case stateBodyTrailerHeaderKey:
 			switch c {
 			case ' ':
